@@ -31,7 +31,7 @@ func apiDocs() []string {
 		`{"a":1,"b":2}`, `{"a":{"c":1},"b":{"c":2}}`, `[{"a":0},{"a":1}]`, `[{"a":1,"b":2},{"a":2,"b":2},{"b":1}]`,
 		`{"a":[[1,2],[3]],"b":[4]}`, `{"a":1,"list":[10,20]}`, `{"a":2,"list":[10,20]}`, `{"x":[{"a":"s"},{"a":1.5},{"a":null},{"a":true},{"a":[1]},{"a":{"b":1}}]}`,
 		`{"a":{"b":{"c":[1,{"d":2}]}},"e":[{"f":1},{"f":2}]}`, `[[1,2],[3,4],[]]`, `{"b":"x","a":"y","c":{"b":1,"a":2}}`,
-		`[{"a":1e400},{"a":1}]`, `{"strict":false,"items":[{"ok":true,"n":1},{"ok":false,"n":5},{"n":7}]}`, `{"want":2,"items":[{"v":1},{"v":2},{"v":3}]}`, `{"items":[{"v":1},{"v":2}]}`,
+		`[{"a":1e400},{"a":1}]`, `{"strict":false,"items":[{"ok":true,"n":1},{"ok":false,"n":5},{"n":7}]}`, `{"want":2,"items":[{"v":1},{"v":2},{"v":3}]}`, `{"items":[{"v":1},{"v":2}]}`, `{"want":5,"items":[{"v":1}]}`,
 		`{"ref":[1,2],"list":[{"v":[1,2]},{"v":3}]}`, `[0,1,2,3,4]`, `[0,1,2,3,4,5,6,7,8,9,10,11,12]`,
 	}
 }
@@ -49,6 +49,7 @@ func apiPaths() []string {
 		`$.*.twice()`, `$.a.twice()`, `$.*.max()`, `$.a.*.max()`, `$.a.max()`, `$.*.collect()`, `$.a.collect()`, `$.*.fail()`, `$.*.afail()`, `$[?(@.a.twice() == 2)]`, `$[?(@.max() > 0)]`,
 		`$.items[?(($.strict == false || @.ok == true) && @.n > 1)]`, `$.items[?((@.ok == true || $.strict == false) && @.n > 1)]`, `$.items[?((!@.zz || @.ok == true) && @.n > 1)]`,
 		`$.items[?(@.v == $.want)]`, `$.items[?(@.v > $.want)]`, `$.list[?(@.v == $.ref)]`, `$.list[?($.ref == @.v)]`, `$[?(@ == $[0])]`, `$[?(@.a == $[0].a)]`, `$[?(@.a < 1e300)]`, `$[?(@.a >= 0)]`,
+		`$.items[?(2 >= $.want)]`, `$.items[?(2 > $.want)]`, `$.items[?(1 <= $.want)]`, `$.items[?(3 < $.want)]`, `$.list[?(1 >= $.a)]`, `$.list[?(1 < $.a)]`,
 		`$[-2:]`, `$[-3:]`, `$[-2:].slow()`, `$[1:].slow()`, `$[-3:]..a`, `$.*.slow()`, `$..a.slow()`, `$[?(@.a)].slow()`, `$[-2:].twice()`, `$[1:3]`, `$[?(@ > 1)]`,
 		`$['a','b'].twice()`, `$['a','b'].collect()`, `$..a.collect()`, `$.zz`, `$.a.zz`, `$[10]`, `$.*.zz`, `$..zz`, `$[?(@.zz)]`, `$.a[0]`, `$[0].a`,
 	}
@@ -802,6 +803,30 @@ func apiCheckErrors(t *testing.T) {
 	if t.Failed() {
 		return
 	}
+	// several failing branches: the reported step is one reached furthest along the path; there a missing member is
+	// preferred over a type mismatch
+	multi := []struct{ path, doc, want string }{
+		{`$..a.b`, `{"c":{"a":1}}`, `type unmatched (expected=object, found=float64, path=.b)`},
+		{`$..x[0]`, `{"k":{"x":"s"}}`, `type unmatched (expected=array, found=string, path=[0])`},
+		{`$.r..a.b.c`, `{"r":{"p":{"q":{"a":true}}}}`, `type unmatched (expected=object, found=bool, path=.b)`},
+		{`$..ab.b`, `{"c":{"ab":1}}`, `type unmatched (expected=object, found=float64, path=.b)`},
+		{`$.*.a.b`, `{"p":{"a":1},"q":{"z":1}}`, `type unmatched (expected=object, found=float64, path=.b)`},
+		{`$.*.a.b`, `{"p":{"a":{"c":1}},"q":{"a":1}}`, `member did not exist (path=.b)`},
+		{`$.*.a.b`, `{"p":{"a":1},"q":{"a":{"c":1}}}`, `member did not exist (path=.b)`},
+		{`$[*].a.b`, `[{"z":1},{"a":{"c":1}},{"a":2}]`, `member did not exist (path=.b)`},
+		{`$['p','q'].a.b`, `{"p":{"a":1},"q":{"a":{}}}`, `member did not exist (path=.b)`},
+		{`$[0,1].a.b`, `[{"a":"s"},{"a":{}}]`, `member did not exist (path=.b)`},
+		{`$[?(@.a)].a.b`, `[{"a":1},{"a":{"c":1}}]`, `member did not exist (path=.b)`},
+		{`$..a.b.c`, `{"x":{"a":{"b":1}},"y":{"a":{"z":1}}}`, `type unmatched (expected=object, found=float64, path=.c)`},
+	}
+	for _, m := range multi {
+		apiCount()
+		_, err := Retrieve(m.path, apiDecode(m.doc))
+		if err == nil || err.Error() != m.want {
+			t.Errorf("REPRODUCED: %q on %s: got %v, expected %q", m.path, m.doc, err, m.want)
+			return
+		}
+	}
 	// the (expected, found) pair of a type mismatch, for every step kind over every kind of value
 	kinds := []struct{ step, text, expected string }{
 		{".x", ".x", "object"}, {"['x']", "['x']", "object"}, {"['x','y']", "['x','y']", "object"}, {".*", ".*", "object/array"}, {"..x", "..", "object/array"},
@@ -881,6 +906,7 @@ func apiDotEscape(k string) (string, bool) {
 func apiCheckKeys(t *testing.T) {
 	keys := []string{"", "a", "b", "ab", "'", "\"", "\\", "a'b", "a\"b", "a\\b", "\\n", "\n", "\\u0041", "A", "\\ud800", "\\'", "'\\", "\\\\", "\\\"",
 		"\u00e9", "\u65e5\u672c", "\U0001F600", "\t", "\r", "\b", "\f", "\x00", "\x1f", "\x7f", " ", "a b", "a.b", "a,b", "$", "@", "*", "[0]", "0", "-1", "a-b", "a_b", "/", "a/b",
+		"\u00e9.b", "a \U0001D11E", "\u65e5\u672c.\u8a9e", "\u00e9 b", "\u00df-\u00fc.\u00f6", "\u00e9'", "\"\u00e9",
 		"(", ")", "()", "f()", "?", "!", "=", "<", ">", "&", "|", "~", "`", "{", "}", "^", "[", "]", ":", ";", "#", "%", "+", "\u2028", "\ufffd", "e\u0301", "\u00a0"}
 	doc := map[string]interface{}{}
 	for i, k := range keys {
@@ -1136,7 +1162,7 @@ func refPool() []refStep {
 	pool := []refStep{
 		{text: ".a", sel: refName("a")}, {text: ".b", sel: refName("b")}, {text: "['c']", sel: refName("c")},
 		{text: "['a','b']", sel: refMulti("a", "b")}, {text: "['b','a','b']", sel: refMulti("b", "a", "b")}, {text: "['a','b','c','a','b']", sel: refMulti("a", "b", "c", "a", "b")},
-		{text: ".*", sel: refWild}, {text: "[*]", sel: refWild},
+		{text: ".*", sel: refWild}, {text: "[*]", sel: refWild}, {text: "[*,*]", sel: refConcat(refWild, refWild)},
 		{text: "[0]", sel: refIndex(0)}, {text: "[1]", sel: refIndex(1)}, {text: "[-1]", sel: refIndex(-1)},
 		{text: "[0:2]", sel: refSlice(ip(0), ip(2), 1)}, {text: "[1:]", sel: refSlice(ip(1), nil, 1)}, {text: "[::-1]", sel: refSlice(nil, nil, -1)}, {text: "[-2:]", sel: refSlice(ip(-2), nil, 1)},
 		{text: "[1,0]", sel: refConcat(refIndex(1), refIndex(0))}, {text: "[0,0]", sel: refConcat(refIndex(0), refIndex(0))}, {text: "[0,1:3]", sel: refConcat(refIndex(0), refSlice(ip(1), ip(3), 1))}, {text: "[0,0,1,1,0]", sel: refConcat(refIndex(0), refIndex(0), refIndex(1), refIndex(1), refIndex(0))},
@@ -1162,6 +1188,7 @@ func refDocs() []string {
 		`[[1,2,3],[4,5],[],{"a":{"b":{"a":7}}}]`,
 		`{}`, `[]`, `{"a":null}`, `[null,1,"s",true]`,
 		`[{"a":1},{"a":2},{"a":3},{"a":4},{"a":5},{"b":2}]`,
+		`{"p":{"a":1,"y":2},"q":{"a":3,"y":4},"r":{"a":5,"b":2}}`,
 		`{"a":[10,20,30,40,50],"b":{"p":{"a":1},"q":{"a":2},"r":{"b":2},"s":{"a":4}}}`,
 	}
 }
